@@ -35,6 +35,7 @@ fn run(o: &Opts) {
     let mut total_dropped_dups = 0u64;
     for chunk in ids.chunks(6) {
         sink.pending(&format!("cases {chunk:?}"));
+        eprintln!("gmq-sim c02_wire: running cases {chunk:?} (re-run one with --only-case)");
         let hs: Vec<_> = chunk.iter().map(|&id| std::thread::spawn(move || {
             let mut rng = Rng::new(seed ^ 0x77, id);
             let plans = c02::plan_streams(&mut rng, thorough);
